@@ -18,6 +18,8 @@ Shared state
 * `openC`    — ids of the connections whose socket is open; `maxOpen` its high-water mark (ghost).
   A connection object in the queue need not be open: a reply with `Connection: close` (`okClose`)
   closes the socket, the object still goes back to the pool and is reconnected by its next user.
+* `gone`     — ids of the open connections whose PEER has closed its end (`okDrop`): their next
+  checkout finds them dropped and closes them (`dropClose`) before the request reconnects them.
 * `wire`     — per connection the tag of the request last written to it (its pending response).
 * `nextId`   — id allocator for `_new_conn()` (modelling device).
 
@@ -38,9 +40,11 @@ abbrev Tag := Nat × Nat
 garbage / peer closes); `okClose` — the reply carries `Connection: close`: the response is delivered
 and `http.client` closes the connection's socket (`getresponse`: `if response.will_close:
 self.close()`, the socket object lives on inside the response until its body has been read) — the
-connection OBJECT is handed back to the pool like any other -/
+connection OBJECT is handed back to the pool like any other; `okDrop` — a keep-alive reply after
+which the PEER closes the connection: the client's socket stays open, the connection is pooled, and
+its next checkout finds it dropped (`is_connection_dropped`) and closes it before reconnecting -/
 inductive Outcome
-  | ok | fail | okClose
+  | ok | fail | okClose | okDrop
 deriving DecidableEq, Repr, Hashable, BEq
 
 structure Cfg where
@@ -83,6 +87,7 @@ inductive Pc
   | getCheck (fails : Nat) (last : Outcome) (stream : Bool)  -- `if self.pool is None: raise ClosedPoolError`
   | getLoad (fails : Nat) (last : Outcome) (stream : Bool)   -- load `self.pool` for `.get(...)`
   | getQ (fails : Nat) (last : Outcome) (stream : Bool)      -- `<queue>.get(block=self.block, timeout=timeout)`
+  | dropClose (c : ConnId) (fails : Nat) (last : Outcome) (stream : Bool)  -- `is_connection_dropped(conn)`: `conn.close()`
   -- `_make_request`
   | send (c : ConnId) (fails : Nat) (last : Outcome) (stream : Bool)   -- connect if needed, write the request
   | recv (c : ConnId) (tag : Tag) (fails : Nat) (last : Outcome) (stream : Bool)  -- read the response / fail
@@ -117,6 +122,8 @@ structure Shared where
   wire : List (ConnId × Tag)
   nextId : ConnId
   maxOpen : Nat
+  /-- connections whose peer has closed its end while the client's socket is still open -/
+  gone : List ConnId
 deriving DecidableEq, Repr, Hashable, BEq
 
 structure State where
@@ -128,7 +135,7 @@ deriving DecidableEq, Repr, Hashable, BEq
 /-- `HTTPConnectionPool.__init__`: `self.pool = QueueCls(maxsize)`; `for _ in range(maxsize): put(None)` -/
 def initShared (cfg : Cfg) : Shared :=
   { poolRef := some 0, queue := List.replicate cfg.maxsize none, openC := [], wire := [],
-    nextId := 0, maxOpen := 0 }
+    nextId := 0, maxOpen := 0, gone := [] }
 
 def initThread (p : List Op) : Thread :=
   { prog := p, pc := .idle, resp := none, leaked := [], results := [], sent := 0, rclose := false }
@@ -139,7 +146,7 @@ def init (cfg : Cfg) (progs : List (List Op)) : State :=
 /-- `conn.close()` for `conn : Optional[...]` (`if conn: conn.close()`); idempotent -/
 def closeConn (sh : Shared) : Option ConnId → Shared
   | none => sh
-  | some c => { sh with openC := sh.openC.filter (· != c) }
+  | some c => { sh with openC := sh.openC.filter (· != c), gone := sh.gone.filter (· != c) }
 
 /-- connect if the connection has no socket (`conn.is_closed` / fresh) -/
 def openConn (sh : Shared) (c : ConnId) : Shared :=
@@ -186,11 +193,13 @@ def tstepPc (cfg : Cfg) (tid : Nat) (sh : Shared) (th : Thread) : Pc → Option 
     match sh.queue with
     | some c :: q =>
       -- `if conn and is_connection_dropped(conn): conn.close()`; `return conn or self._new_conn()`:
-      -- the test reads the connection object only (held by this thread alone); on a connection that
-      -- was pooled closed (`c ∉ openC`) `conn.close()` changes nothing, and the SAME object is
-      -- handed out — it reconnects when the request is written (`send`: `openConn`).  Nothing else
-      -- is taken from the queue.
-      some ({ sh with queue := q }, { th with pc := .send c f l st })
+      -- the test reads the connection object / its socket only (held by this thread alone).  On a
+      -- connection that was pooled closed (`c ∉ openC`) `conn.close()` changes nothing; when the peer
+      -- has gone (`c ∈ gone`) `conn.close()` closes the socket — a step of its own (`dropClose`).
+      -- Either way the SAME object is handed out and reconnects when the request is written
+      -- (`send`: `openConn`).  Nothing else is taken from the queue.
+      if sh.gone.contains c then some ({ sh with queue := q }, { th with pc := .dropClose c f l st })
+      else some ({ sh with queue := q }, { th with pc := .send c f l st })
     | none :: q =>                                   -- `conn or self._new_conn()`
       some ({ sh with queue := q, nextId := sh.nextId + 1 }, { th with pc := .send sh.nextId f l st })
     | [] =>
@@ -198,6 +207,10 @@ def tstepPc (cfg : Cfg) (tid : Nat) (sh : Shared) (th : Thread) : Pc → Option 
         if cfg.timeout then some (sh, finish th .emptyPool)   -- queue.Empty → EmptyPoolError
         else none                                              -- blocked in `get()`
       else some ({ sh with nextId := sh.nextId + 1 }, { th with pc := .send sh.nextId f l st })
+  | .dropClose c f l st =>
+    -- the peer has closed the idle connection: `conn.close()` closes the client's socket; the same
+    -- object is returned and reconnects in `send`
+    some (closeConn sh (some c), { th with pc := .send c f l st })
   | .send c f l st =>
     let tag : Tag := (tid, th.sent)
     let sh1 := openConn sh c
@@ -214,6 +227,12 @@ def tstepPc (cfg : Cfg) (tid : Nat) (sh : Shared) (th : Thread) : Pc → Option 
       if st then
         some (sh, finish { th with resp := some c, rclose := false, leaked := th.resp.toList ++ th.leaked } r)
       else some (sh, { th with pc := .putCheck (some c) (.fin r) })
+    | 0, .okDrop =>      -- keep-alive reply, then the peer closes: the connection is pooled open, marked `gone`
+      let r : Res := if wireGet sh.wire c = some tag then .ok else .wrongResp
+      let sh1 := { sh with gone := c :: sh.gone.filter (· != c) }
+      if st then
+        some (sh1, finish { th with resp := some c, rclose := false, leaked := th.resp.toList ++ th.leaked } r)
+      else some (sh1, { th with pc := .putCheck (some c) (.fin r) })
     | 0, .okClose =>     -- `Connection: close`: `conn.sock = None`; the socket itself is closed when the body
                          -- has been read — now (preload) or by the response's reader (streaming)
       let r : Res := if wireGet sh.wire c = some tag then .ok else .wrongResp
@@ -296,6 +315,7 @@ def allDone (s : State) : Bool := s.threads.all Thread.done
 /-- connections a thread holds: in its current request / put, or in a streaming response -/
 def Thread.pcConn (th : Thread) : Option ConnId :=
   match th.pc with
+  | .dropClose c .. => some c
   | .send c .. => some c
   | .recv c .. => some c
   | .putCheck i _ | .putLoad i _ | .putQ i _ | .fullClose i _ | .warn i _ | .discard i _ => i
